@@ -239,9 +239,10 @@ def make_world(hooks, errh):
     app.route('/only-put', 'PUT', handler)
 
     if hooks == 'two_two':
+        # the three ways to attach a hook: add_hook(name, f), on(name, f), @on(name)
         app.add_hook('before_request', lambda: tr.append('B1'))
-        app.add_hook('before_request', lambda: tr.append('B2'))
-        app.add_hook('after_request', lambda: tr.append('A1'))
+        app.on('before_request', lambda: tr.append('B2'))
+        app.on('after_request')(lambda: tr.append('A1'))
         app.add_hook('after_request', lambda: tr.append('A2'))
     elif hooks == 'before_fails':
         app.add_hook('before_request', lambda: tr.append('B1'))
@@ -553,6 +554,63 @@ def selfmod_unit(ctx, unit):
     ctx.sample({'self_modifying_hooks': HOOKS_SELFMOD, 'requests_per_configuration': 3})
 
 
+BAD_STATUSES = [99, 0, -1, 1000, 10 ** 6, '200', 'abc def', '99 Too Low', '1000 Too High', '', ' ']
+EDGE_STATUSES = [100, 101, 199, 200, 399, 600, 998, 999, '999 Last', '100 First']
+
+
+def badstatus_unit(ctx, unit):
+    """A handler that chooses a status outside 100..999 (or a status string without a code and reason) fails like any other failing
+    handler: one well-formed 500, hooks as usual.  Codes at the edges of the range are served as chosen."""
+    import ombott
+    from ombott import HTTPResponse, HTTPError
+    for S in BAD_STATUSES + EDGE_STATUSES:
+        for how in ('response.status', 'HTTPResponse returned', 'HTTPResponse raised', 'HTTPError raised', 'abort'):
+            for method in ('GET', 'HEAD'):
+                app = ombott.Ombott()
+                tr = []
+                app.add_hook('before_request', lambda: tr.append('B'))
+                app.on('after_request', lambda: tr.append('A'))
+
+                def h():
+                    tr.append('handler')
+                    if how == 'response.status':
+                        app.response.status = S
+                        return 'body'
+                    if how == 'HTTPResponse returned':
+                        return HTTPResponse('body', S)
+                    if how == 'HTTPResponse raised':
+                        raise HTTPResponse('body', S)
+                    if how == 'HTTPError raised':
+                        raise HTTPError(S, 'body')
+                    ombott.abort(S, 'body')
+                app.route('/s', ['GET', 'HEAD'], h)
+                r = call_app(app, make_environ(method, '/s'))
+                bad = S in BAD_STATUSES
+                ctx.count('programs')
+                ctx.count('out_of_range_statuses' if bad else 'edge_statuses')
+                ctx.case(('badstatus', repr(S), how, method), nontrivial=True)
+                wit = {'unit': {'kind': 'note', 'status_chosen': repr(S), 'how': how, 'method': method}}
+                where = f'status {S!r} chosen through {how} ({method})'
+                if r.escaped is not None or r.sr_calls != 1 or r.problems:
+                    ctx.violation('malformed-wsgi-response:' + (r.problems[0].split(':')[0][:40] if r.problems else 'escaped-or-start_response'), f'{where}: {r.escaped!r} {r.problems} sr={r.sr_calls}', wit)
+                    continue
+                ctx.count('sr_once')
+                exp = 500 if bad else code_of(S)
+                if not S and how != 'response.status':
+                    # a falsy status given to a constructor means "not given": the class default (200 / 500)
+                    exp = 200 if how.startswith('HTTPResponse') else 500
+                    bad = False
+                if r.code != exp:
+                    ctx.violation(f'status-differs-from-program:{exp}->{r.code}' if not bad else f'out-of-range-status-answered-{r.code}', f'{where}: {r.status}', wit)
+                    continue
+                if tr != ['B', 'handler', 'A']:
+                    ctx.violation('hook-or-handler-trace-differs:bad-status', f'{where}: {tr}', wit)
+                fr = check_framing(r, method)
+                if fr:
+                    ctx.violation('framing:' + fr.split(':')[0][:40], f'{where}: {fr}', wit)
+    ctx.sample({'out_of_range_statuses': [repr(s) for s in BAD_STATUSES], 'edge_statuses': [repr(s) for s in EDGE_STATUSES]})
+
+
 def programs(tier):
     for hooks, errh in itertools.product(HOOKS, ERRH + (ERRH_MORE if tier == 'thorough' else [])):
         for route in ROUTES:
@@ -576,7 +634,7 @@ def programs(tier):
 
 def plan(tier, seed):
     combos = list(itertools.product(HOOKS, ERRH + (ERRH_MORE if tier == 'thorough' else [])))
-    return [{'kind': 'product', 'hooks': h, 'errh': e, 'tier': tier} for h, e in combos] + [{'kind': 'selfmod'}]
+    return [{'kind': 'product', 'hooks': h, 'errh': e, 'tier': tier} for h, e in combos] + [{'kind': 'selfmod'}, {'kind': 'badstatus'}]
 
 
 def product_unit(ctx, unit):
@@ -592,6 +650,10 @@ def run_unit(ctx, unit):
         product_unit(ctx, unit)
     elif unit['kind'] == 'selfmod':
         selfmod_unit(ctx, unit)
+    elif unit['kind'] == 'badstatus':
+        badstatus_unit(ctx, unit)
+    elif unit['kind'] == 'note':
+        print('  witness:', unit)
     else:
         p = unit['program']
         W = make_world(p['hooks'], p['errh'])
